@@ -12,7 +12,7 @@ import vrun
 from gen import Gen
 from common import cerberus
 
-LEVEL = "proof"
+LEVEL = "exploration"
 COQ_FILES = []
 FACT_GROUPS = []
 ALLOWED_AXIOMS = []
